@@ -109,7 +109,8 @@ CHECKS = {
              "arithmetic monitor on random well-formed models (declared in - out = directly measured storage change + decay, "
              "residual tolerance only for sub-FLOAT_ACCURACY dust). Node classes with theorems of their own: Demand / ResidentialDemand "
              "(Demand.v: declared accounts = arc records), Sewer and QueueGroundwater discharge (SewerLaws.v), whole networks of "
-             "junction / store / river / catchment nodes (NetLaws.v, water); families net, demand, tarea tie them.",
+             "junction / store / river / catchment nodes (NetLaws.v, water), the treatment step and WWTW.calculate_discharge (WtwLaws.v); "
+             "families net, demand, tarea, wtw tie them.",
         design="5/C01", tech="Coq proof for junction/store/arc building blocks + exact-arithmetic whole-model balance monitor (partial)",
         note=NOTE + "Node classes beyond junction/store/arc are modelled only by the implementation monitor at this stage."),
     "C03": dict(
@@ -166,7 +167,8 @@ CHECKS = {
              "max(v - X, 0); the same through a plain arc with capacity and admitted flow in front of a tank-backed node; a "
              "river without upstream neighbours (minimum flow subtracted). Other node classes: check -> request probes on every "
              "arc of random whole models after real request histories. Two genuine defects (stale QueueGroundwater push check, "
-             "Catchment push check echoing the offer) were repaired with fix: commits.",
+             "Catchment push check echoing the offer) were repaired with fix: commits. WWTW: the sewer push check is honest in every "
+             "state (theorem over Wtw.v, family wtw); Distribution with leakage: Leak.v, family leak, model witness of the open finding.",
         design="5/C07", tech="Coq proof (min/max case analysis over store and arc models) + exact correspondence + check->request probes on whole models (partial)",
         note=NOTE),
     "C08": dict(
